@@ -1,6 +1,16 @@
 package vt
 
-import toxiproxy "github.com/Shopify/toxiproxy/v2"
+import (
+	"strings"
 
-// alignment is filled in by the verif shim (see /repo export_verif.go); without it, nil.
-func alignment(p *toxiproxy.Proxy) [][]string { return nil }
+	toxiproxy "github.com/Shopify/toxiproxy/v2"
+)
+
+// alignment: per registered link "name|dir|chain names|stub states" through the verif shim.
+func alignment(p *toxiproxy.Proxy) [][]string {
+	var res [][]string
+	for _, v := range p.VerifLinks() {
+		res = append(res, []string{v.Name, v.Direction, strings.Join(v.Chain, ","), strings.Join(v.Stubs, ",")})
+	}
+	return res
+}
